@@ -9,6 +9,7 @@ mod props;
 mod refpng;
 mod report;
 mod rng;
+mod rops;
 mod util;
 mod watchdog;
 
